@@ -12,7 +12,7 @@ ID = "C07"
 RULE = (
     "case = backend x pulsetime (0, 1 ms, 0.5 s, 1 s, 5 s, 60 s, or exactly one of the stream's gaps; a third of the time moved by a fraction of a microsecond or by 1/3 ms, i.e. a float that is no whole number of microseconds) x stream of 1..25 heartbeats built constructively: "
     "ts_i = ts_{i-1} + d (d >= 1 ms), end_i = max(end_{i-1}, ts_i) + extra with extra = 0 about half the time (zero-length heartbeats, heartbeats starting exactly "
-    "at the previous end, end instants that tie with the previous event), data from {A,B,C} with runs and alternation; 1..2 other buckets on the same store "
+    "at the previous end, end instants that tie with the previous event), data from {A,B,C} (one case in four: titles with non-ASCII text and an unpaired surrogate) with runs and alternation; 1..2 other buckets on the same store "
     "pre-populated with events whose end instants or start instants coincide with points of the stream. Oracle: the standard loop (get(limit=1) -> heartbeat_merge -> "
     "replace_last | insert); at the end get(-1) ascending == heartbeat_reduce(deep copy of the stream, pulsetime) as (instant, duration, data); after EACH heartbeat "
     "all events but the newest are unchanged and the other buckets' dumps are unchanged. Non-trivial = the stream contains a merge, a non-merge and an end-instant tie."
@@ -35,7 +35,10 @@ def strategy(draw, tier="quick"):
     ts = draw(st.integers(0, 5000))
     end = ts
     runlen = draw(st.sampled_from([1, 2, 3, 6]))
-    label = draw(st.sampled_from("ABC"))
+    # what the data says does not matter to the loop, only whether it is equal; one case in four uses real-looking titles instead of
+    # letters: non-ASCII text, and a title cut in the middle of an emoji (an unpaired surrogate - legal in a str and in JSON)
+    pool = draw(st.sampled_from(["ABC", "ABC", "ABC", ["A", "title \ud83d", "\u65e5\u672c \U0001f642"]]))
+    label = draw(st.sampled_from(pool))
     for i in range(n):
         if i:
             ts += draw(st.sampled_from([1, 1, 2, 500, 1000, 1000, 4999, 5000, 5001, 60000]))
@@ -44,7 +47,7 @@ def strategy(draw, tier="quick"):
         extra = draw(st.sampled_from([0, 0, 0, 1, 1000, 2000, 0, 0, 0, 1, 1000, 2000, 86_400_000, 90_000_000]))  # rarely: a heartbeat reaching a day ahead
         end = max(end, ts) + extra
         if i % runlen == 0 or draw(st.integers(0, 5)) == 0:
-            label = draw(st.sampled_from("ABC"))
+            label = draw(st.sampled_from(pool))
         hbs.append({"ts_ms": ts, "dur_ms": end - ts, "data": label})
     pm = draw(st.integers(0, 7))
     if pm == 0 and n >= 2:
